@@ -535,7 +535,7 @@ class ShelfManager:
         matcher = re.compile("shelf-([1-9][0-9]*)")
         shelf_ids = []
         for filename in filenames:
-            match = matcher.match(filename)
+            match = matcher.fullmatch(filename)
             if match is not None:
                 shelf_ids.append(int(match.group(1)))
         return shelf_ids
